@@ -1,0 +1,5 @@
+//go:build !verif
+
+package profile
+
+func genvarTrace(hint string, value int) {}
